@@ -290,6 +290,8 @@ def run(ctx):
                                   {'source': 'oracle', 'theorem': 'C16_single_fault', 'case': c,
                                    'observed': o})
     ctx.note('case_classes', hist)
+    ctx.expect_known('abstract-method-unchecked', bool(known))
+    ctx.note('known_finding_cases', known)
     ctx.note('fault_kinds', len(D.FAULTS))
 
     # ---- model ------------------------------------------------------------------
